@@ -118,6 +118,16 @@ Theorem C07_cli_success_writes_all_partial : forall args tr1 env, disciplined tr
 Proof. exact cli_success_writes_all. Qed.
 Print Assumptions C07_cli_success_writes_all_partial.
 
+(* several make_* directives may name one file: emit_files walks the list in source order, so appending a directive
+   changes only its own path, and there its output replaces whatever an earlier directive wrote (last writer wins);
+   a refused or failed directive changes nothing.  partial: the model has a list because the source has one
+   (translator: `for ... in self.emitted_files`); the real order of writes is tied by runs under every hash seed (C18) *)
+Theorem C07_emit_last_writer_wins_partial : forall ws p w disk, no_crash ws = true ->
+  (w = WOk -> emit_disk 0 (ws ++ [(p, w)]) disk p = Some (length ws)) /\
+  (forall q, q <> p \/ w <> WOk -> emit_disk 0 (ws ++ [(p, w)]) disk q = emit_disk 0 ws disk q).
+Proof. exact emit_last_writer_wins. Qed.
+Print Assumptions C07_emit_last_writer_wins_partial.
+
 (* non-vacuity *)
 Example C07_ex_error_then_recoverable :
   let tr := [Report PWarning "meta-typo"; Report PError "undefined-symbol"; RaiseRecoverable; Report PError "x"] in
